@@ -682,7 +682,7 @@ func treeOf(dir, tag string, e *h.Env, withIndex bool) ([]string, string) {
 	if err != nil {
 		return nil, "open: " + err.Error()
 	}
-	defer e2.Close()
+	defer e2.Shutdown()
 	s2 := h.NewSession(e2)
 	var lines []string
 	msg := ""
@@ -762,7 +762,7 @@ func oracleC07(i int, dir string, s *h.Session, st *h.Step) []string {
 	if err != nil {
 		return []string{"open: " + err.Error()}
 	}
-	defer e2.Close()
+	defer e2.Shutdown()
 	s2 := h.NewSession(e2)
 	var msgs []string
 	ok := s2.Guard(func() {
